@@ -136,7 +136,7 @@ void chk_describe(FILE *f)
 
 struct case_budget chk_budget(const char *tier)
 {
-        struct case_budget b = { 0, strcmp(tier, "thorough") == 0 ? 12000 : 320 };
+        struct case_budget b = { 0, strcmp(tier, "thorough") == 0 ? 8000 : 320 };
         return b;
 }
 void chk_run_case(uint64_t seed, long c, bool is_sweep)
